@@ -26,12 +26,18 @@ def stacks(mods):
     def mk_hash_pooled(S, kw):
         return HashClient([("h", 1)], socket_module=S.sm, use_pooling=True, max_pool_size=2, **kw)
 
+    def mk_hash_zero(S, kw):
+        # a hasher whose scores are all 0 (the lowest value the hash can take): the single server must still win
+        from pymemcache.client.rendezvous import RendezvousHash
+        import functools
+        return HashClient([("10.0.0.1", 1)], socket_module=S.sm, hasher=functools.partial(RendezvousHash, hash_function=lambda x, seed: 0), **kw)
+
     def mk_retry(S, kw):
         return RetryingClient(Client(("h", 1), socket_module=S.sm, **kw), attempts=2)
 
     def mk_retry_pooled(S, kw):
         return RetryingClient(PooledClient(("h", 1), socket_module=S.sm, **kw), attempts=3)
-    return [("Client", mk_client), ("PooledClient", mk_pooled), ("HashClient", mk_hash), ("HashClient+pool", mk_hash_pooled), ("RetryingClient", mk_retry),
+    return [("Client", mk_client), ("PooledClient", mk_pooled), ("HashClient", mk_hash), ("HashClient+pool", mk_hash_pooled), ("HashClient(score 0)", mk_hash_zero), ("RetryingClient", mk_retry),
             ("RetryingClient(Pooled)", mk_retry_pooled)]
 
 
@@ -129,7 +135,7 @@ def main(argv):
                         obj = None
                     if obj is not None:
                         # establish the server state through a plain raw feed (not through the client under test)
-                        srv = S.server_for(type("C", (), {"addr": ("h", 1), "id": 999})())
+                        srv = S.server_for(type("C", (), {"addr": (("10.0.0.1", 1) if sname == "HashClient(score 0)" else ("h", 1)), "id": 999})())
                         wk = kw["key_prefix"] + K.encode("utf8")
                         if state in ("hit", "cas-mismatch"):
                             srv.feed(999, b"set " + wk + b" 0 0 3\r\nold\r\n")
